@@ -77,6 +77,7 @@ func stopModules() error {
 	reports := make(chan *report)
 	execCnt := 0
 	reportCnt := 0
+	verifEvent("ev:stopPassBegin")
 
 	// get number of started modules
 	startedCnt := 0
@@ -104,6 +105,7 @@ func stopModules() error {
 		if reportCnt < execCnt {
 			// wait for reports
 			rep = <-reports
+			verifEvent("ev:sReport", rep.module.Name)
 			if rep.err != nil {
 				lastErr = rep.err
 				rep.module.NewErrorMessage("stop module", rep.err).Report()
@@ -115,9 +117,11 @@ func stopModules() error {
 			// finished
 			if waiting > 0 {
 				// check for dep loop
+				verifEvent("ev:stopPassEnd")
 				return fmt.Errorf("modules: dependency loop detected, cannot continue")
 			}
 			// return last error
+			verifEvent("ev:stopPassEnd")
 			return lastErr
 		}
 	}
